@@ -6,7 +6,7 @@ sample buffer (in order) and, per tid, the triple (`lastTs`, `context_switch_dat
 object bound to (pid, tid). A pid / tid that is not bound is observed like a freshly created one (empty queue,
 empty buffer, `Thread::new` defaults), so on-demand creation is invisible. Every helper of the converter is
 characterised on these observations (`Same` = nothing visible changes), then every record kind (`obs_*`).
-Default options only (`reuse = false`).
+Every configuration (with `--reuse-threads` the recycled handles and names are invisible to the observations).
 
 This generalises `lastOf` / `tl` of `Lemmas/ConvInv.lean` (C01_dedup_refinement) from `lastTs` to the triple and
 adds the per-process queue and buffer; it is what the history-level theorems of C02 (`C02_history`), C12
@@ -226,21 +226,25 @@ theorem getThread_same {s : St} {p : ProcC} (tid : Nat) (hp : alGet s.procs p.pi
         exact h1.trans (Same.put (p := mkThreadC s p tid none) hp hobs)
       · rw [tq_thread htid, ht]; rfl
 
-open LifeL in
-theorem getNewProc_same {s : St} (hr : s.cfg.reuse = false) (pid : Nat) (name : Option String) (start : Nat) :
+section
+open LifeL
+theorem getNewProc_fresh {s : St} {pid : Nat} {name : Option String} {start : Nat} (h : alGet s.procs pid = none)
+    (hrec : (if s.cfg.reuse then (match name with | some n => procPoolTake s.procPool n | none => none) else none) = none) :
+    getNewProc s pid name start = (mkProcS s pid name start, mkProcC s pid name) := by
+  unfold getNewProc
+  rw [h]
+  cases name with
+  | none => simp only [ite_self]; rfl
+  | some n =>
+    simp only at hrec
+    simp only [hrec, addProcess, addThread, setTName, setT, putProc, mkProcS, mkProcC]
+    rw [modifyNth_concat_len]
+
+theorem getNewProc_same (s : St) (pid : Nat) (name : Option String) (start : Nat) :
     Same s (getNewProc s pid name start).1 ∧
       alGet (getNewProc s pid name start).1.procs pid = some (getNewProc s pid name start).2 ∧
       pobsP (getNewProc s pid name start).2 = pobs s.procs pid := by
   cases h : alGet s.procs pid with
-  | none =>
-    rw [getNewProc_none h hr]
-    refine ⟨?_, alGet_alPut_self _ _ _, ?_⟩
-    · have h1 : Same s { s with usedPids := (mkProcS s pid name start).usedPids,
-                                usedTids := (mkProcS s pid name start).usedTids,
-                                pents := (mkProcS s pid name start).pents,
-                                tents := (mkProcS s pid name start).tents } := Same.of_eq rfl rfl rfl rfl
-      exact h1.trans (Same.putFresh (p := mkProcC s pid name) h (pobsP_fresh rfl rfl rfl rfl))
-    · rw [pobs_of_none h]; exact pobsP_fresh rfl rfl rfl rfl
   | some p0 =>
     have e : getNewProc s pid name start =
         ((if p0.main.lastTs.isNone then setTStart (setPStart s p0.h start) p0.main.h start else s), p0) := by
@@ -251,27 +255,85 @@ theorem getNewProc_same {s : St} (hr : s.cfg.reuse = false) (pid : Nat) (name : 
       · exact Same.of_eq rfl rfl rfl rfl
       · exact Same.refl s
     · dsimp only; split <;> exact h
+  | none =>
+    cases hrec : (if s.cfg.reuse then (match name with | some n => procPoolTake s.procPool n | none => none) else none) with
+    | none =>
+      rw [getNewProc_fresh h hrec]
+      refine ⟨?_, Conv.alGet_alPut_self _ _ _, ?_⟩
+      · have h1 : Same s { s with usedPids := (mkProcS s pid name start).usedPids,
+                                  usedTids := (mkProcS s pid name start).usedTids,
+                                  pents := (mkProcS s pid name start).pents,
+                                  tents := (mkProcS s pid name start).tents } := Same.of_eq rfl rfl rfl rfl
+        exact h1.trans (Same.putFresh (p := mkProcC s pid name) h (pobsP_fresh rfl rfl rfl rfl))
+      · rw [pobs_of_none h]; exact pobsP_fresh rfl rfl rfl rfl
+    | some rp =>
+      obtain ⟨r, pool'⟩ := rp
+      have e : getNewProc s pid name start =
+          (putProc { s with procPool := pool' } { pid, h := r.ph, name, main := { h := r.mainTh, name }, pool := r.pool },
+           { pid, h := r.ph, name, main := { h := r.mainTh, name }, pool := r.pool }) := by
+        cases name with
+        | none => simp at hrec
+        | some n => simp only at hrec; unfold getNewProc; rw [h]; simp only [hrec]
+      rw [e]
+      refine ⟨?_, Conv.alGet_alPut_self _ _ _, ?_⟩
+      · have h1 : Same s { s with procPool := pool' } := Same.of_eq rfl rfl rfl rfl
+        exact h1.trans (Same.putFresh (s := { s with procPool := pool' })
+          (p := { pid, h := r.ph, name, main := { h := r.mainTh, name }, pool := r.pool }) h
+          (pobsP_fresh rfl rfl rfl rfl))
+      · rw [pobs_of_none h]; exact pobsP_fresh rfl rfl rfl rfl
 
-open LifeL in
-theorem getNewThread_same {s : St} {p : ProcC} (hr : s.cfg.reuse = false) (hp : alGet s.procs p.pid = some p)
+theorem getNewThread_fresh {s : St} {p : ProcC} {tid : Nat} {name : Option String} {start : Nat} (htid : tid ≠ p.pid)
+    (ht : alGet p.threads tid = none)
+    (hrec : (if s.cfg.reuse then (match name with | some n => poolTake p.pool n | none => none) else none) = none) :
+    getNewThread s p tid name start = (mkThreadS s p tid name start, mkThreadC s p tid name) := by
+  unfold getNewThread
+  rw [if_neg htid, ht]
+  cases name with
+  | none => simp only [ite_self]; rfl
+  | some n =>
+    simp only at hrec
+    simp only [hrec, addThread, setTName, setT, putProc, mkThreadS, mkThreadC]
+    rw [modifyNth_concat_len]
+
+theorem getNewThread_same {s : St} {p : ProcC} (hp : alGet s.procs p.pid = some p)
     (tid : Nat) (name : Option String) (start : Nat) :
     Same s (getNewThread s p tid name start).1 := by
   by_cases htid : tid = p.pid
   · unfold getNewThread; rw [if_pos htid]; exact Same.refl s
   · cases ht : alGet p.threads tid with
     | none =>
-      rw [getNewThread_none htid ht hr]
-      have hobs : pobsP (mkThreadC s p tid name) = pobsP p := by
+      cases hrec : (if s.cfg.reuse then (match name with | some n => poolTake p.pool n | none => none) else none) with
+      | none =>
+        rw [getNewThread_fresh htid ht hrec]
+        have hobs : pobsP (mkThreadC s p tid name) = pobsP p := by
+          refine PObs.ext' rfl rfl ?_
+          intro b
+          show tq (mkThreadC s p tid name) b = tq p b
+          rw [tq_alPut (p := p) (p' := mkThreadC s p tid name) rfl rfl rfl htid]
+          split
+          · next hb => rw [hb, tq_thread htid, ht]; rfl
+          · rfl
+        have h1 : Same s { s with usedTids := (mkThreadS s p tid name start).usedTids,
+                                  tents := (mkThreadS s p tid name start).tents } := Same.of_eq rfl rfl rfl rfl
+        exact h1.trans (Same.put (p := mkThreadC s p tid name) hp hobs)
+      | some hp' =>
+        obtain ⟨hh, pool'⟩ := hp'
+        have e : getNewThread s p tid name start =
+            (putProc s { p with threads := alPut p.threads tid { h := hh, name }, pool := pool' },
+             { p with threads := alPut p.threads tid { h := hh, name }, pool := pool' }) := by
+          cases name with
+          | none => simp at hrec
+          | some n => simp only at hrec; unfold getNewThread; rw [if_neg htid, ht]; simp only [hrec]
+        rw [e]
+        refine Same.put (p0 := p) hp ?_
         refine PObs.ext' rfl rfl ?_
         intro b
-        show tq (mkThreadC s p tid name) b = tq p b
-        rw [tq_alPut (p := p) (p' := mkThreadC s p tid name) rfl rfl rfl htid]
+        show tq _ b = tq p b
+        rw [tq_alPut (p := p) (p' := { p with threads := alPut p.threads tid { h := hh, name }, pool := pool' })
+          rfl rfl rfl htid]
         split
         · next hb => rw [hb, tq_thread htid, ht]; rfl
         · rfl
-      have h1 : Same s { s with usedTids := (mkThreadS s p tid name start).usedTids,
-                                tents := (mkThreadS s p tid name start).tents } := Same.of_eq rfl rfl rfl rfl
-      exact h1.trans (Same.put (p := mkThreadC s p tid name) hp hobs)
     | some t =>
       have e : getNewThread s p tid name start = ((if t.lastTs.isNone then setTStart s t.h start else s), p) := by
         unfold getNewThread; rw [if_neg htid, ht]
@@ -280,6 +342,8 @@ theorem getNewThread_same {s : St} {p : ProcC} (hr : s.cfg.reuse = false) (hp : 
       split
       · exact Same.of_eq rfl rfl rfl rfl
       · exact Same.refl s
+
+end
 
 /-- the observation after `remove_non_main_thread`: the thread triple at `tid` is reset -/
 theorem removeThread_obs {s : St} {p : ProcC} {tid : Nat} (time : Nat) (hp : alGet s.procs p.pid = some p)
@@ -325,9 +389,22 @@ theorem removeThread_obs {s : St} {p : ProcC} {tid : Nat} (time : Nat) (hp : alG
     show pobs (alPut s.procs p.pid _) a = _
     rw [pobs_alPut, hobs]
 
-open LifeL in
+section
+open LifeL
+theorem removeProc_fields {s : St} {pid : Nat} {p : ProcC} (h : alGet s.procs pid = some p) (time : Nat) :
+    (removeProc s pid time).procs = alDel s.procs pid ∧
+    (removeProc s pid time).parked = (if p.samples.isEmpty then s.parked else s.parked ++ [(p.samples, p.mapq, p.pid)]) ∧
+    (removeProc s pid time).cfg = s.cfg ∧ (removeProc s pid time).bad = s.bad := by
+  unfold removeProc
+  rw [h]
+  simp only [foldl_setTEnd]
+  cases hs : p.samples.isEmpty <;> cases hn : p.name <;> cases hrv : s.cfg.reuse <;>
+    simp [setTEnd, setPEnd, setT, setP, delProc, hrv]
+
+end
+
 /-- the observation after `Processes::remove`: the pid is unbound, a non-empty buffer is parked with its queue -/
-theorem removeProc_obs {s : St} (hr : s.cfg.reuse = false) (hk : ∀ k p, alGet s.procs k = some p → p.pid = k)
+theorem removeProc_obs {s : St} (hk : ∀ k p, alGet s.procs k = some p → p.pid = k)
     (pid time : Nat) :
     (∀ a, pobs (removeProc s pid time).procs a = if a = pid then PObs.empty else pobs s.procs a) ∧
     (removeProc s pid time).parked =
@@ -337,64 +414,93 @@ theorem removeProc_obs {s : St} (hr : s.cfg.reuse = false) (hk : ∀ k p, alGet 
     alGet (removeProc s pid time).procs pid = none := by
   cases h : alGet s.procs pid with
   | none =>
-    rw [removeProc_none h, pobs_of_none h]
+    rw [LifeL.removeProc_none h, pobs_of_none h]
     refine ⟨fun a => ?_, by simp [PObs.empty], rfl, rfl, h⟩
     split
     · next ha => rw [ha, pobs_of_none h]
     · rfl
   | some p =>
-    rw [removeProc_some h hr, pobs_of_get h]
-    refine ⟨fun a => pobs_alDel _ _ _, ?_, rfl, rfl, alGet_alDel_self _ _⟩
-    show (if p.samples.isEmpty then s.parked else s.parked ++ [(p.samples, p.mapq, p.pid)]) = _
-    rw [hk pid p h]
+    obtain ⟨f1, f2, f3, f4⟩ := removeProc_fields h time
+    rw [pobs_of_get h]
+    refine ⟨fun a => by rw [f1]; exact pobs_alDel _ _ _, ?_, f3, f4, by rw [f1]; exact alGet_alDel_self _ _⟩
+    rw [f2, hk pid p h]
     show _ = s.parked ++ (if p.samples.isEmpty then [] else [(p.samples, p.mapq, pid)])
     split <;> simp
 
-theorem renameProcess_same {s : St} (hr : s.cfg.reuse = false) (hk : ∀ k p, alGet s.procs k = some p → p.pid = k)
+theorem renameProcess_same {s : St} (hk : ∀ k p, alGet s.procs k = some p → p.pid = k)
     (pid time : Nat) (name : String) : Same s (renameProcess s pid time name) := by
   unfold renameProcess
   cases h : alGet s.procs pid with
-  | none => exact (getNewProc_same hr pid (some name) time).1
+  | none => exact (getNewProc_same s pid (some name) time).1
   | some p =>
     dsimp only
+    have hp : alGet s.procs p.pid = some p := by rw [hk pid p h]; exact h
     split
     · exact Same.refl s
-    · simp only [hr, Bool.false_eq_true, if_false]
-      have h1 : Same s (setTName (setPName s p.h name) p.main.h name) := Same.of_eq rfl rfl rfl rfl
-      refine h1.trans (Same.put (p0 := p) ?_ ?_)
-      · show alGet s.procs p.pid = some p
-        rw [hk pid p h]; exact h
-      · refine PObs.ext' rfl rfl (fun b => ?_)
+    · cases hrec : (if s.cfg.reuse then procPoolTake s.procPool name else none) with
+      | none =>
+        simp only [hrec]
+        have h1 : Same s (setTName (setPName s p.h name) p.main.h name) := Same.of_eq rfl rfl rfl rfl
+        refine h1.trans (Same.put (p0 := p) hp ?_)
+        refine PObs.ext' rfl rfl (fun b => ?_)
         show tq _ b = tq p b
         refine tq_congr (p := p) ?_ ?_ ?_ b <;> rfl
+      | some rp =>
+        obtain ⟨r, pool'⟩ := rp
+        simp only [hrec]
+        have key : ∀ pp, Same s (putProc { s with procPool := pp }
+            { p with h := r.ph, name := some name, main := { p.main with h := r.mainTh, name := some name },
+                     pool := r.pool }) := by
+          intro pp
+          have h1 : Same s { s with procPool := pp } := Same.of_eq rfl rfl rfl rfl
+          refine h1.trans (Same.put (s := { s with procPool := pp }) (p0 := p) hp ?_)
+          refine PObs.ext' rfl rfl (fun b => ?_)
+          show tq _ b = tq p b
+          refine tq_congr (p := p) ?_ ?_ ?_ b <;> rfl
+        exact key _
 
-theorem renameThread_same {s : St} {p : ProcC} (hr : s.cfg.reuse = false) (hp : alGet s.procs p.pid = some p)
+theorem renameThread_same {s : St} {p : ProcC} (hp : alGet s.procs p.pid = some p)
     (tid time : Nat) (name : String) : Same s (renameThread s p tid time name) := by
   unfold renameThread
   split
   · exact Same.refl s
   · next htid =>
     cases ht : alGet p.threads tid with
-    | none => exact getNewThread_same hr hp tid (some name) time
+    | none => exact getNewThread_same hp tid (some name) time
     | some th =>
       dsimp only
       split
       · exact Same.refl s
-      · simp only [hr, Bool.false_eq_true, if_false]
-        have h1 : Same s (setTName s th.h name) := Same.of_eq rfl rfl rfl rfl
-        refine h1.trans (Same.put (p0 := p) ?_ ?_)
-        · show alGet s.procs (putThread p tid { th with name := some name }).pid = some p
-          rw [putThread_pid]; exact hp
-        · refine PObs.ext' ?_ ?_ (fun b => ?_)
-          · show (putThread p tid _).mapq = p.mapq
-            unfold putThread; split <;> rfl
-          · show (putThread p tid _).samples = p.samples
-            exact putThread_samples _ _ _
-          · show tq (putThread p tid _) b = tq p b
-            rw [tq_putThread]
+      · cases hrv : s.cfg.reuse with
+        | true =>
+          simp only [if_true]
+          split
+          · next hh pool' _ =>
+            refine Same.put (p0 := p) hp ?_
+            refine PObs.ext' rfl rfl (fun b => ?_)
+            show tq _ b = tq p b
+            rw [tq_alPut (p := p) (p' := { p with threads := alPut p.threads tid { th with h := hh, name := some name }, pool := _ })
+              rfl rfl rfl htid]
             split
             · next hb => rw [hb, tq_thread htid, ht]; rfl
             · rfl
+          · exact Same.refl s
+        | false =>
+          simp only [Bool.false_eq_true, if_false]
+          have h1 : Same s (setTName s th.h name) := Same.of_eq rfl rfl rfl rfl
+          refine h1.trans (Same.put (p0 := p) ?_ ?_)
+          · show alGet s.procs (putThread p tid { th with name := some name }).pid = some p
+            rw [putThread_pid]; exact hp
+          · refine PObs.ext' ?_ ?_ (fun b => ?_)
+            · show (putThread p tid _).mapq = p.mapq
+              unfold putThread; split <;> rfl
+            · show (putThread p tid _).samples = p.samples
+              exact putThread_samples _ _ _
+            · show tq (putThread p tid _) b = tq p b
+              rw [tq_putThread]
+              split
+              · next hb => rw [hb, tq_thread htid, ht]; rfl
+              · rfl
 
 /-- `commitThread`: the thread triple at `tid` is replaced, the emitted samples are appended to the buffer -/
 theorem commitThread_obs {s : St} {p : ProcC} (tid : Nat) (r : ThreadC × List USample × Bool)
@@ -493,7 +599,7 @@ theorem obs_commit {s : St} (hinv : InvA s) (pid tid : Nat) (f : St → ThreadC 
   · rw [c4, sm2.bad, sm1.bad]
 
 /-- EXIT -/
-theorem obs_exit {s : St} (hinv : InvA s) (hr : s.cfg.reuse = false) (pid tid t : Nat) :
+theorem obs_exit {s : St} (hinv : InvA s) (pid tid t : Nat) :
     (∀ a, pobs (step s (.exit pid tid t)).procs a =
       if pid = tid then upd (pobs s.procs) pid PObs.empty a
       else upd (pobs s.procs) pid ((pobs s.procs pid).setThr tid tqFresh) a) ∧
@@ -502,7 +608,7 @@ theorem obs_exit {s : St} (hinv : InvA s) (hr : s.cfg.reuse = false) (pid tid t 
   rw [LifeL.step_exit]
   by_cases hpt : pid = tid
   · simp only [hpt, if_true]
-    obtain ⟨a1, a2, a3, a4, _⟩ := removeProc_obs hr (keys_of_inv hinv) tid (conv s t)
+    obtain ⟨a1, a2, a3, a4, _⟩ := removeProc_obs (keys_of_inv hinv) tid (conv s t)
     exact ⟨a1, a2, a3, a4⟩
   · simp only [hpt, if_false]
     cases hb : alGet s.procs pid with
@@ -523,7 +629,7 @@ theorem obs_exit {s : St} (hinv : InvA s) (hr : s.cfg.reuse = false) (pid tid t 
       rfl
 
 /-- COMM -/
-theorem obs_comm {s : St} (hinv : InvA s) (hr : s.cfg.reuse = false) (pid tid : Nat) (name : String)
+theorem obs_comm {s : St} (hinv : InvA s) (pid tid : Nat) (name : String)
     (isExec : Bool) (t : Nat) :
     (∀ a, pobs (step s (.comm pid tid name isExec t)).procs a =
       if isExec then
@@ -540,8 +646,8 @@ theorem obs_comm {s : St} (hinv : InvA s) (hr : s.cfg.reuse = false) (pid tid : 
     simp only [if_true, Bool.true_and]
     by_cases hpt : pid = tid
     · simp only [hpt, if_true, decide_true]
-      obtain ⟨a1, a2, a3, a4, _⟩ := removeProc_obs hr (keys_of_inv hinv) tid time
-      obtain ⟨sm, _⟩ := getNewProc_same (s := removeProc s tid time) (by rw [a3]; exact hr) tid (some name) time
+      obtain ⟨a1, a2, a3, a4, _⟩ := removeProc_obs (keys_of_inv hinv) tid time
+      obtain ⟨sm, _⟩ := getNewProc_same (removeProc s tid time) tid (some name) time
       exact ⟨fun a => (sm.obs a).trans (a1 a), sm.parked.trans a2, sm.cfg.trans a3, sm.bad.trans a4⟩
     · simp only [hpt, if_false, decide_false]
       obtain ⟨sm1, hg1⟩ := getByPid_same s pid
@@ -553,7 +659,7 @@ theorem obs_comm {s : St} (hinv : InvA s) (hr : s.cfg.reuse = false) (pid tid : 
         (by rw [hpid1]; exact fun e => hpt e.symm)
       have sm3 := getNewThread_same (s := (removeThread (getByPid s pid).1 (getByPid s pid).2 tid time).1)
         (p := (removeThread (getByPid s pid).1 (getByPid s pid).2 tid time).2)
-        (by rw [a3, sm1.cfg]; exact hr) (by rw [a6]; exact a5) tid (some name) time
+        (by rw [a6]; exact a5) tid (some name) time
       refine ⟨fun a => ?_, ?_, ?_, ?_⟩
       · rw [sm3.obs, a1 a, hpid1, ← pobs_of_get hg1, sm1.obs]
         unfold upd
@@ -568,15 +674,15 @@ theorem obs_comm {s : St} (hinv : InvA s) (hr : s.cfg.reuse = false) (pid tid : 
     have key : Same s (if pid = tid then renameProcess s pid time name
         else renameThread (getByPid s pid).1 (getByPid s pid).2 tid time name) := by
       split
-      · exact renameProcess_same hr (keys_of_inv hinv) pid time name
+      · exact renameProcess_same (keys_of_inv hinv) pid time name
       · obtain ⟨sm1, hg1⟩ := getByPid_same s pid
         obtain ⟨g1, _⟩ := getByPid_spec hinv (show getByPid s pid = (_, _) from rfl)
         have hpid1 : (getByPid s pid).2.pid = pid := (g1.inv.get hg1).1
-        exact sm1.trans (renameThread_same (by rw [sm1.cfg]; exact hr) (by rw [hpid1]; exact hg1) tid time name)
+        exact sm1.trans (renameThread_same (by rw [hpid1]; exact hg1) tid time name)
     exact ⟨key.obs, key.parked, key.cfg, key.bad⟩
 
 /-- FORK -/
-theorem obs_fork {s : St} (hinv : InvA s) (hr : s.cfg.reuse = false) (pid tid ppid ptid t : Nat) :
+theorem obs_fork {s : St} (hinv : InvA s) (pid tid ppid ptid t : Nat) :
     (∀ a, pobs (step s (.fork pid tid ppid ptid t)).procs a =
       if pid ≠ ppid then upd (pobs s.procs) pid { pobs s.procs pid with mapq := (pobs s.procs ppid).mapq } a
       else pobs s.procs a) ∧
@@ -587,10 +693,9 @@ theorem obs_fork {s : St} (hinv : InvA s) (hr : s.cfg.reuse = false) (pid tid pp
   obtain ⟨sm1, hg1⟩ := getByPid_same s ppid
   obtain ⟨g1, _⟩ := getByPid_spec hinv (show getByPid s ppid = (_, _) from rfl)
   have hpid1 : (getByPid s ppid).2.pid = ppid := (g1.inv.get hg1).1
-  have hr1 : (getByPid s ppid).1.cfg.reuse = false := by rw [sm1.cfg]; exact hr
   by_cases hpp : pid ≠ ppid
   · simp only [hpp, ne_eq, not_false_eq_true, if_true]
-    obtain ⟨sm2, hg2, hob2⟩ := getNewProc_same hr1 pid (getByPid s ppid).2.name start
+    obtain ⟨sm2, hg2, hob2⟩ := getNewProc_same (getByPid s ppid).1 pid (getByPid s ppid).2.name start
     obtain ⟨g2, _⟩ := getNewProc_spec g1.inv
       (show getNewProc (getByPid s ppid).1 pid (getByPid s ppid).2.name start = (_, _) from rfl)
     have hcpid : (getNewProc (getByPid s ppid).1 pid (getByPid s ppid).2.name start).2.pid = pid := (g2.inv.get hg2).1
@@ -621,7 +726,7 @@ theorem obs_fork {s : St} (hinv : InvA s) (hr : s.cfg.reuse = false) (pid tid pp
     obtain ⟨sm2, hg2, hpid2, _, _, _⟩ := getThread_same ptid hp1
     have sm3 := getNewThread_same (s := (getThread (getByPid s ppid).1 (getByPid s ppid).2 ptid).1)
       (p := (getThread (getByPid s ppid).1 (getByPid s ppid).2 ptid).2.1)
-      (by rw [sm2.cfg]; exact hr1) (by rw [hpid2]; exact hg2) tid
+      (by rw [hpid2]; exact hg2) tid
       (getThread (getByPid s ppid).1 (getByPid s ppid).2 ptid).2.2.name start
     have sm := (sm1.trans sm2).trans sm3
     exact ⟨sm.obs, sm.parked, sm.cfg, sm.bad⟩
